@@ -239,7 +239,7 @@ def _df_fillna(df, method = None, axis = 0, limit = None):
             if m == 'fnna':
                 nonan = nonan[nonan.values]
                 if len(nonan):
-                    res = res[nonan.index[0]:]
+                    res = res.loc[nonan.index[0]:] ## by label: integer labels are no longer positions once an earlier step has dropped rows
                 else:
                     res = res.iloc[:0]
             elif m == 'nona':
